@@ -243,12 +243,15 @@ def run(ctx):
     ctx.rule("R03.1", "ancestor lookup is component-exact: a node obtained from Trie::get_ancestor (a string-prefix lookup) is consulted "
                       "(Gitignore::matched*) only on paths where a component-wise containment test between the searched path and the node's key "
                       "succeeded (Path::starts_with / strip_prefix(..).is_ok())")
+    ctx.also("R03.1", 'no ancestry test on rendered strings anywhere in the ignore crates, discovery (must_skip) included (shared with R14.5)')
     ctx.rule("R03.2", "walk to the parent: when the node does not decide (no match, or not an ancestor) the search continues with the parent of the "
                       "node's key; Match::None is returned only when there is no node or no parent; a found match is returned as is")
     ctx.rule("R03.3", "listed order is precedence: the file contents consumed by the add_line loop of IgnoreFilter::new come from `files` through "
                       "order-preserving combinators only (no FuturesUnordered / buffer_unordered / hash-map iteration)")
+    ctx.also("R03.3", 'the discovery arguments keep explicit files in the order given: constructors store them as given, canonicalise() resolves them in order (shared with R14.2)')
     ctx.rule("R03.4", "consumers re-check the scope of positive matches: check_dir and IgnoreFilterer::check_event treat Match::Ignore(glob) as a "
                       "rejection only when glob.from() is a prefix of the path (or absent); a whitelist match passes")
+    ctx.also("R03.4", "after the whitelist the first decision on every path through GlobsetFilterer::check_event is the loaded ignore files' verdict, unconditionally")
     ctx.rule("R03.6", "every line of an ignore file / glob list reaches GitignoreBuilder::add_line unless it is empty or a comment, nothing ends the line "
                       "loop early except an add_line error; an empty per-directory node is inserted only when the directory has none yet")
     ctx.rule("R03.7", "builders stay where they are: outside finish() nothing takes a directory's GitignoreBuilder (or its whole node) out of the trie, so an "
@@ -257,8 +260,10 @@ def run(ctx):
                       "unconditionally dunce::simplified(path).normalize() (no fast path that lets `/o/./sub` or `/o//sub` through)")
     ctx.rule("R03.9", "matcher selection in match_path: a consulted node is asked about the probed path itself (and is_dir); `path or any parent` "
                       "matching is used exactly when the probed path lies under the filter's origin - decided on the probed path, not on the moving search cursor")
+    ctx.also("R03.9", 'the CLI roots the filterer at the project origin, the directory discovery started from (shared with R12.1)')
     ctx.rule("R03.5", "per-directory grouping: every GitignoreBuilder::add_line gets Some(applies_in) where applies_in is "
                       "get_applies_in_path(origin, file), and the compiled set is stored under that same directory's key")
+    ctx.also("R03.5", 'the directory each discovered file is recorded as applying in (origin table, shared with R14.4)')
 
     # ---- R03.1 / R03.2
     try:
